@@ -6,6 +6,41 @@
 //! `VIOLATION property=<id> replay=<path>`), 2 = inconclusive (hang watchdog, degenerate generator,
 //! harness-internal error) — never a violation.
 
+/// The code under test println!s (role changes, snapshots). At start-up the real stdout is saved and fd 1
+/// is pointed at /dev/null; verdict lines go through `outln!` to the saved descriptor.
+pub static OUT_FD: std::sync::atomic::AtomicI32 = std::sync::atomic::AtomicI32::new(1);
+pub fn silence_stdout() {
+    unsafe {
+        let saved = libc::dup(1);
+        let devnull = libc::open(b"/dev/null\0".as_ptr() as *const libc::c_char, libc::O_WRONLY);
+        if saved >= 0 && devnull >= 0 {
+            libc::dup2(devnull, 1);
+            libc::close(devnull);
+            OUT_FD.store(saved, std::sync::atomic::Ordering::SeqCst);
+        }
+    }
+}
+pub fn out_write(s: &str) {
+    let fd = OUT_FD.load(std::sync::atomic::Ordering::SeqCst);
+    let bytes = s.as_bytes();
+    let mut off = 0;
+    while off < bytes.len() {
+        let n = unsafe { libc::write(fd, bytes[off..].as_ptr() as *const libc::c_void, bytes.len() - off) };
+        if n <= 0 {
+            break;
+        }
+        off += n as usize;
+    }
+}
+#[macro_export]
+macro_rules! outln {
+    ($($arg:tt)*) => {{
+        let mut s = format!($($arg)*);
+        s.push('\n');
+        $crate::runner::out_write(&s);
+    }};
+}
+
 use std::collections::{BTreeMap, HashSet};
 use std::fmt::Debug;
 use std::hash::{Hash, Hasher};
@@ -40,6 +75,9 @@ pub struct Violation {
     pub signature: String,
     /// Human readable description of what failed.
     pub detail: String,
+    /// Optional recorded trace of the violating execution (JSON). Stored next to the replay file so the
+    /// verdict can be re-judged even when re-execution takes a different path (see DESIGN.md §7).
+    pub artifact: Option<String>,
 }
 
 #[derive(Clone, Debug, Default)]
@@ -74,6 +112,7 @@ impl Outcome {
             self.violation = Some(Violation {
                 signature: signature.into(),
                 detail: detail.into(),
+                artifact: None,
             });
         }
     }
@@ -191,12 +230,12 @@ pub fn run_check<C: Check>(check: C, args: RunArgs) -> i32 {
         let out = check.run(&case);
         return match out.violation {
             Some(v) => {
-                println!("replay: violation signature={} detail={}", v.signature, v.detail);
-                println!("VIOLATION property={} replay={}", id, path.display());
+                crate::outln!("replay: violation signature={} detail={}", v.signature, v.detail);
+                crate::outln!("VIOLATION property={} replay={}", id, path.display());
                 1
             }
             None => {
-                println!("replay: property held on {}", path.display());
+                crate::outln!("replay: property held on {}", path.display());
                 0
             }
         };
@@ -229,7 +268,7 @@ pub fn run_check<C: Check>(check: C, args: RunArgs) -> i32 {
             for (w, slot) in case_started.iter().enumerate() {
                 let st = slot.load(Ordering::Relaxed);
                 if st != 0 && now.saturating_sub(st) > limit.as_millis() as u64 {
-                    println!(
+                    crate::outln!(
                         "INCONCLUSIVE property={id} worker={w}: a case exceeded the {}s wall-clock watchdog (hang) — exit 2",
                         limit.as_secs()
                     );
@@ -394,6 +433,7 @@ pub fn run_check<C: Check>(check: C, args: RunArgs) -> i32 {
                             let v = last_violation.borrow().clone().unwrap_or(Violation {
                                 signature: format!("{}:unknown", check.id()),
                                 detail: String::new(),
+                                artifact: None,
                             });
                             // re-run minimal case for its own detail
                             let out = check.run(&case);
@@ -401,7 +441,7 @@ pub fn run_check<C: Check>(check: C, args: RunArgs) -> i32 {
                             Some((v, case))
                         }
                         Err(TestError::Abort(r)) => {
-                            println!("INCONCLUSIVE property={}: proptest aborted: {r} — exit 2", check.id());
+                            crate::outln!("INCONCLUSIVE property={}: proptest aborted: {r} — exit 2", check.id());
                             std::process::exit(2);
                         }
                     }
@@ -418,7 +458,7 @@ pub fn run_check<C: Check>(check: C, args: RunArgs) -> i32 {
                 }
                 Ok(None) => {}
                 Err(_) => {
-                    println!("INCONCLUSIVE property={id}: harness worker panicked — exit 2");
+                    crate::outln!("INCONCLUSIVE property={id}: harness worker panicked — exit 2");
                     return 2;
                 }
             }
@@ -447,13 +487,16 @@ pub fn run_check<C: Check>(check: C, args: RunArgs) -> i32 {
         let path = dir.join(name);
         let body = json!({"property": id, "signature": v.signature, "detail": v.detail, "seed": args.seed, "case": case_v});
         std::fs::write(&path, serde_json::to_string_pretty(&body).unwrap()).ok();
-        println!("violation signature={} detail={}", v.signature, v.detail);
-        println!("VIOLATION property={} replay={}", id, path.display());
+        if let Some(a) = &v.artifact {
+            std::fs::write(path.with_extension("trace.json"), a).ok();
+        }
+        crate::outln!("violation signature={} detail={}", v.signature, v.detail);
+        crate::outln!("VIOLATION property={} replay={}", id, path.display());
         violation_json = json!({"signature": v.signature, "detail": v.detail, "replay": path});
     }
     for k in known.iter().filter(|k| k.status == "open") {
         let hits = known_hits.get(&k.signature).map(|x| x.0).unwrap_or(0);
-        println!("KNOWN-FINDING: property={} {} [signature={} observed_this_run={}]", id, k.what_fails, k.signature, hits);
+        crate::outln!("KNOWN-FINDING: property={} {} [signature={} observed_this_run={}]", id, k.what_fails, k.signature, hits);
     }
 
     // generator health gate
@@ -494,7 +537,7 @@ pub fn run_check<C: Check>(check: C, args: RunArgs) -> i32 {
     let _ = std::fs::create_dir_all(&evdir);
     std::fs::write(evdir.join(format!("{id}.json")), serde_json::to_string_pretty(&ev).unwrap()).expect("write evidence");
 
-    println!(
+    crate::outln!(
         "{} {}: evaluations={} distinct_nontrivial={} wall={:.1}s violations={}",
         id,
         args.tier.name(),
@@ -504,11 +547,11 @@ pub fn run_check<C: Check>(check: C, args: RunArgs) -> i32 {
         violations
     );
     if exit == 0 && !degenerate.is_empty() {
-        println!("INCONCLUSIVE property={id}: generator degenerate, required labels below 5%: {degenerate:?} — exit 2");
+        crate::outln!("INCONCLUSIVE property={id}: generator degenerate, required labels below 5%: {degenerate:?} — exit 2");
         return 2;
     }
     if exit == 0 && distinct < 2 {
-        println!("INCONCLUSIVE property={id}: fewer than 2 distinct non-trivial cases — exit 2");
+        crate::outln!("INCONCLUSIVE property={id}: fewer than 2 distinct non-trivial cases — exit 2");
         return 2;
     }
     exit
